@@ -57,8 +57,8 @@ _BEHS = {}
 # (behaviours, depth) simulated once per run and shared by the waitgroup and the dedup replay
 SIM_QUICK = {"Ord": (70, 40), "OrdT": (40, 60), "Probe": (200, 45), "ProbeQ": (150, 45), "ProbeT": (100, 60),
              "Split": (120, 45), "Defensive": (250, 40)}
-SIM_THOROUGH = {"Ord": (900, 40), "OrdT": (500, 60), "Probe": (4000, 45), "ProbeQ": (1500, 45), "ProbeT": (2000, 60),
-                "Split": (3000, 45), "Defensive": (5000, 45), "Four": (4000, 60), "FourQ": (1000, 60), "FourI": (3000, 60)}
+SIM_THOROUGH = {"Ord": (900, 40), "OrdT": (500, 60), "Probe": (2500, 45), "ProbeQ": (1000, 45), "ProbeT": (1200, 60),
+                "Split": (1500, 45), "Defensive": (2500, 45), "Four": (2000, 60), "FourQ": (800, 60), "FourI": (1500, 60)}
 
 
 def dedup_behaviours(ctx, name, limit=None):
@@ -244,7 +244,7 @@ def model_check(ctx, thorough):
     quick = [("MC_Ord.cfg", 4), ("MC_Probe2.cfg", 2), ("MC_LiveOrd2.cfg", 2), ("MC_LiveProbe2.cfg", 2),
              ("MC_TimeDW2.cfg", 2), ("MC_TimeWD2.cfg", 2)]
     full = quick + [("MC_Probe.cfg", 8), ("MC_Split.cfg", 8), ("MC_Defensive.cfg", 8), ("MC_LiveOrd.cfg", 6),
-                    ("MC_LiveProbe.cfg", 8), ("MC_TimeWD.cfg", 6), ("MC_TimeDW.cfg", 8), ("MC_FourI.cfg", 8)]
+                    ("MC_LiveProbe.cfg", 8), ("MC_TimeWD.cfg", 6), ("MC_TimeDW.cfg", 8)]
     # -coverage on one config per tier: every action of the model must be exercised.  (ProbeLimit needs
     # three requests on a probe key; the two-request quick config cannot reach it, so the quick tier
     # requires it among the simulated schedules instead.)
@@ -256,12 +256,52 @@ def model_check(ctx, thorough):
             zero = [a for a in r.zero_coverage() if a != "Tick" and (thorough or a != "ProbeLimit")]
             if zero:
                 raise vf.MachineryError("Dedup actions never taken in %s: %s" % (cov_cfg, zero))
-    # non-vacuity: without the writer guard TLC must find two replies
-    r = ctx.tlc("Dedup", "MC_Dedup.tla", "MC_NoGuard.cfg", workers=2, timeout=300, heap="4g",
-                must_pass=False, tag="negative", count=False)
-    if r.violated != "AtMostOneReply":
-        raise vf.MachineryError("negative config MC_NoGuard did not violate AtMostOneReply (got %s): "
-                                "the invariant would be vacuous" % r.violated)
+    if thorough:
+        # four requests (three clients + a second key / an internal sub-query): the exhaustive graphs are
+        # 10^7..10^8 states, so the invariants are checked along random deep behaviours instead
+        for cfg in ("MC_Four.cfg", "MC_FourI.cfg"):
+            r = ctx.tlc("Dedup", "MC_Dedup.tla", cfg, workers=4, timeout=900, heap="6g", must_pass=False, count=False,
+                        tag="simulate-invariants", args=["-simulate", "num=30000", "-depth", "70", "-seed", str(ctx.seed)])
+            if r.rc != 0 or r.violated:
+                raise vf.MachineryError("TLC simulation of %s failed on the model alone (rc=%d, violated=%s)\n%s" % (
+                    cfg, r.rc, r.violated, "\n".join(r.out.splitlines()[-30:])))
+    # non-vacuity: with the guarding mechanism switched off in the model TLC must find the violation
+    for cfg, inv in (("MC_NoGuard.cfg", "AtMostOneReply"), ("MC_NegLocal.cfg", "FailureIsPrivate"),
+                     ("MC_NegTombstone.cfg", "TimedOutGenerationIsTombstone")):
+        r = ctx.tlc("Dedup", "MC_Dedup.tla", cfg, workers=2, timeout=300, heap="4g",
+                    must_pass=False, tag="negative", count=False)
+        if r.violated != inv:
+            raise vf.MachineryError("negative config %s did not violate %s (got %s): the invariant would be "
+                                    "vacuous" % (cfg, inv, r.violated))
+
+
+def replay_core(ctx, path):
+    """bin/check C11 --replay <file>: re-run exactly the recorded failing case."""
+    import json
+    with open(path) as f:
+        rec = json.load(f)
+    rp = rec.get("replay", rec)
+    drv = rp.get("driver")
+    if drv == "dedup":
+        cfg = DD_CONFIGS[rp["config"]]
+        steps = [x[len("drain:"):] if x.startswith("drain:") else x for x in rp["steps"]]
+        inp = {"config": rp["config"], "nk": cfg["nk"], "maxGen": cfg["maxgen"], "reqs": rp["reqs"],
+               "probeKeys": rp["probeKeys"], "schedules": [{"id": rp.get("schedule", "replay"), "steps": steps}],
+               "traceOut": "", "shortMs": 25}
+        res = ctx.go_driver("./c11", "TestDedupSchedules", inp, name="replay_dedup", timeout=600)
+    elif drv == "waitgroup":
+        res = ctx.go_driver("./c11", "TestWaitGroupReplay", {"nk": 2, "shortMs": 15, "behaviours": [rp["behaviour_full"]]},
+                            name="replay_wg", timeout=600)
+    elif drv == "dedup-free":
+        ctx.seed = int(rp.get("seed", ctx.seed))
+        res = ctx.go_driver("./c11", "TestDedupFreeRun", {"rounds": int(rp.get("round", 0)) + 1, "clients": 18,
+                                                           "deadlineMs": 150, "marginMs": 2500}, name="replay_free", timeout=900)
+    else:
+        raise vf.MachineryError("replay file %s: unknown driver %r" % (path, drv))
+    ctx.take_driver_result(res, "[replay] ")
+    ctx.cov["states"] = max(1, ctx.cov["states"])
+    ctx.cov["transitions"] = max(1, ctx.cov["transitions"])
+    ctx.cov["replay"]["replayed_file"] = path
 
 
 def run_core(ctx):
